@@ -17,6 +17,9 @@ ops (Float carrier):
   piecewise x fixed orig resc        -> out
   loop      t y m ep ec fixed k iters -> out
   constrain eps iters fixed times edges(p c p c …) -> out   (the committed `constrainAges` model)
+  damp x y s | rescale x s | prior (state) free maxshape reltol maxitt | moments ages post
+  ep_pre (state) ep ec lik ages minstep tiny ei -> case | projection arguments
+  ep_post (state) … args vals maxshape -> post | edge factor | scale | node factors
 -/
 import TsdateVerif.Model.Scale
 import TsdateVerif.Model.Constrain
@@ -47,6 +50,36 @@ def nats (xs : List Nat) : String := " ".intercalate (xs.map toString)
 def secs (xs : List String) : String := " | ".intercalate xs
 
 def finite (xs : List Float) : Bool := xs.all (fun x => x.isFinite)
+
+
+def pairs : List Float → List (Float × Float)
+  | a :: b :: rest => (a, b) :: pairs rest
+  | _ => []
+
+def quads : List Float → List ((Float × Float) × (Float × Float))
+  | a :: b :: c :: d :: rest => ((a, b), (c, d)) :: quads rest
+  | _ => []
+
+def unpairs (xs : List (Float × Float)) : List Float := xs.flatMap (fun p => [p.1, p.2])
+
+def ages (ws : List String) : Option (List (Option Float)) :=
+  mapAll (fun w => if w = "n" then some none else (hexToFloat w).map some) ws
+
+def epState (blk : List (List String)) : Option (EPState Float) := do
+  let post := pairs (← fl blk "post")
+  let efac := quads (← fl blk "efac")
+  let nfac := pairs (← fl blk "nfac")
+  let scale ← fl blk "scale"
+  if nfac.length ≠ post.length ∨ scale.length ≠ post.length then none
+  pure { post := post, edgeFac := efac, nodeFac := nfac, scale := scale }
+
+def bitsEq (a b : Float × Float) : Bool := floatToHex a.1 == floatToHex b.1 && floatToHex a.2 == floatToHex b.2
+
+def nanP : Float × Float := (0.0 / 0.0, 0.0 / 0.0)
+
+def stateOut (s : EPState Float) (ei : Nat) : String :=
+  let f := getF s.edgeFac ei
+  secs [hexs (unpairs s.post), hexs [f.1.1, f.1.2, f.2.1, f.2.2], hexs s.scale, hexs (unpairs s.nodeFac)]
 
 def runOp (op : String) (blk : List (List String)) : Option String := do
   match op with
@@ -159,6 +192,62 @@ def runOp (op : String) (blk : List (List String)) : Option String := do
     let out := constrainAges (fun x => x + eps) (fun x => max (x + eps) (nextUp x))
       (fixed.map (· == 1)).toArray eps es times.toArray iters
     pure (hexs out.toList)
+  | "damp" =>
+    let x := pairs (← fl blk "x")
+    let y := pairs (← fl blk "y")
+    pure (hexs [damp (← x.head?) (← y.head?) (← f1 blk "s")])
+  | "rescale" =>
+    let x := pairs (← fl blk "x")
+    pure (hexs [rescaleEta (← x.head?) (← f1 blk "s")])
+  | "prior" =>
+    let st ← epState blk
+    let free ← nl blk "free"
+    if free.length ≠ st.post.length then none
+    let r := propagatePrior Nat.toFloat (free.map (· == 1)) (← f1 blk "maxshape") (← f1 blk "reltol") (← n1 blk "maxitt") st
+    pure (secs [hexs (unpairs r.post), hexs (unpairs r.nodeFac), hexs r.scale])
+  | "moments" =>
+    let fa ← ages (← field blk "ages")
+    let post := pairs (← fl blk "post")
+    if fa.length ≠ post.length then none
+    let r := nodeMoments fa post
+    pure (secs [hexs (r.map (·.1)), hexs (r.map (·.2))])
+  | "ep_pre" =>
+    let st ← epState blk
+    let ep ← nl blk "ep"
+    let ec ← nl blk "ec"
+    let lik := pairs (← fl blk "lik")
+    let fa ← ages (← field blk "ages")
+    let ei ← n1 blk "ei"
+    if ei ≥ ep.length ∨ ec.length ≠ ep.length ∨ lik.length ≠ ep.length ∨ st.edgeFac.length ≠ ep.length then none
+    if fa.length ≠ st.post.length ∨ (ep ++ ec).any (fun i => i ≥ fa.length) then none
+    let r := edgePre (ep.zip ec) lik fa (← f1 blk "minstep") (← f1 blk "tiny") st ei
+    match r.2 with
+    | .skip => pure "skip"
+    | .leaf tp _ _ cav l => pure (secs ["leaf", hexs [tp, cav.1, cav.2, l.1, l.2]])
+    | .root tc _ _ cav l => pure (secs ["root", hexs [tc, cav.1, cav.2, l.1, l.2]])
+    | .joint _ _ _ pc cc l => pure (secs ["joint", hexs [pc.1, pc.2, cc.1, cc.2, l.1, l.2]])
+  | "ep_post" =>
+    let st ← epState blk
+    let ep ← nl blk "ep"
+    let ec ← nl blk "ec"
+    let lik := pairs (← fl blk "lik")
+    let fa ← ages (← field blk "ages")
+    let ei ← n1 blk "ei"
+    if ei ≥ ep.length ∨ ec.length ≠ ep.length ∨ lik.length ≠ ep.length ∨ st.edgeFac.length ≠ ep.length then none
+    if fa.length ≠ st.post.length ∨ (ep ++ ec).any (fun i => i ≥ fa.length) then none
+    -- the real kernel's value on exactly the arguments the model computed (anything else -> NaN)
+    let args ← fl blk "args"
+    let vals := pairs (← fl blk "vals")
+    let v1 ← vals.head?
+    let v2 := vals.getD 1 nanP
+    let P : Projections Float :=
+      { gamma := fun a b l =>
+          if hexs [a.1, a.2, b.1, b.2, l.1, l.2] == hexs args then (v1, v2) else (nanP, nanP)
+        rootward := fun t a l => if hexs [t, a.1, a.2, l.1, l.2] == hexs args then v1 else nanP
+        leafward := fun t a l => if hexs [t, a.1, a.2, l.1, l.2] == hexs args then v1 else nanP }
+    let r := edgePost P (← f1 blk "maxshape") ei
+      (edgePre (ep.zip ec) lik fa (← f1 blk "minstep") (← f1 blk "tiny") st ei)
+    pure (stateOut r ei)
   | _ => none
 
 def runCase (blk : List (List String)) : Option String := do
